@@ -116,6 +116,33 @@ theorem MState.run_snoc (kinds : List RawKind) (pass : List Nat) (s : MState) (o
       simp only [hs] at h1 ⊢
       exact ih s1 h1
 
+/-- the positions skipped while running a trace, one primitive more -/
+theorem skippedRun_snoc (kinds : List RawKind) (pass : List Nat) (s : MState) (ops : List POp) (op : POp) (m m' : MState)
+    (h1 : s.run kinds pass ops = some m) (h2 : m.step kinds pass op = some m') :
+    skippedRun kinds pass s (ops ++ [op]) = skippedRun kinds pass s ops ++ skippedBy m op := by
+  induction ops generalizing s with
+  | nil =>
+    simp only [MState.run] at h1
+    cases h1
+    simp [skippedRun, h2]
+  | cons o rest ih =>
+    simp only [List.cons_append, MState.run] at h1
+    cases hs : s.step kinds pass o with
+    | none => simp [hs] at h1
+    | some s1 =>
+      simp only [hs] at h1
+      simp only [List.cons_append, skippedRun, hs, List.append_assoc]
+      rw [ih s1 h1]
+
+/-- `skip_token` is only ever applied to a compiler directive (the arm of `parse_structures` that calls it has just
+    matched one); the machine model checks it, so that "skipped" tokens are known to get a directive line -/
+def skipGuard (kinds0 : List RawKind) (pass : List Nat) (m : MState) : POp → Bool
+  | .skip =>
+    match pass[m.passIdx]? with
+    | some tok => kinds0[tok]? == some .rCompilerDirective
+    | none => false
+  | _ => true
+
 /-- a machine state together with the trace of primitives that produced it from the initial state: the
     state of the line builder can only be what the primitives make of it -/
 structure Traced (kinds0 : List RawKind) (pass : List Nat) where
@@ -123,17 +150,35 @@ structure Traced (kinds0 : List RawKind) (pass : List Nat) where
   /-- the primitives issued so far, newest first -/
   trace : List POp
   ok : MState.init.run kinds0 pass trace.reverse = some m
+  /-- every position skipped so far holds a compiler directive -/
+  skipOk : ∀ j ∈ skippedRun kinds0 pass MState.init trace.reverse,
+    ∃ tok, pass[j]? = some tok ∧ kinds0[tok]? = some .rCompilerDirective
 
 def Traced.init (kinds0 : List RawKind) (pass : List Nat) : Traced kinds0 pass :=
-  { m := MState.init, trace := [], ok := rfl }
+  { m := MState.init, trace := [], ok := rfl, skipOk := by intro j hj; simp [skippedRun] at hj }
 
-/-- one more primitive; `none` = the machine rejects it (the real code would panic) -/
+/-- one more primitive; `none` = the machine rejects it (the real code would panic), or a skip of something that is
+    not a compiler directive -/
 def Traced.step {kinds0 : List RawKind} {pass : List Nat} (t : Traced kinds0 pass) (op : POp) : Option (Traced kinds0 pass) :=
   match h : t.m.step kinds0 pass op with
   | none => none
   | some m' =>
-    some { m := m', trace := op :: t.trace,
-           ok := by rw [List.reverse_cons]; exact MState.run_snoc kinds0 pass _ _ op t.m m' t.ok h }
+    if hg : skipGuard kinds0 pass t.m op = true then
+      some { m := m', trace := op :: t.trace,
+             ok := by rw [List.reverse_cons]; exact MState.run_snoc kinds0 pass _ _ op t.m m' t.ok h,
+             skipOk := by
+               rw [List.reverse_cons, skippedRun_snoc kinds0 pass _ _ op t.m m' t.ok h]
+               intro j hj
+               rcases List.mem_append.1 hj with h1 | h1
+               · exact t.skipOk j h1
+               · cases op <;> simp [skippedBy] at h1
+                 subst h1
+                 simp only [skipGuard] at hg
+                 split at hg
+                 · rename_i tok htok
+                   exact ⟨tok, htok, by simpa using hg⟩
+                 · cases hg }
+    else none
 
 structure PS where
   /-- the lexer's kinds, as a list, for `MState.step` only (comment kinds never change) -/
